@@ -294,8 +294,10 @@ def run(ctx) -> None:
         if comp.startswith("sam"):
             ctx.count("sam_envs")
     while not ctx.out_of_time(2.0):
-        n = rng.choice([4, 4, 5])
+        n = rng.choice([4, 4, 4, 5, 5, 5, 6])
         g, comp, gapname = pick_config(rng, quick)
+        if n == 6:
+            comp, g = "superadditive_cached", rng.choice(SA_GENERATORS[:12])
         nexp = (1 << n) - n - 2
         budget = rng.choice([None, None, rng.randint(1, nexp)])
         script = []
